@@ -215,7 +215,7 @@ class Gen:
         kinds = ['apps', 'appb', 'appc', 'pres', 'preb', 'asg', 'asg', 'copy-mutate', 'resize', 'resize', 'reserve', 'clear', 'detach',
                  'poke', 'cstr', 'cstr', 'attach', 'attach', 'repc', 'reps', 'reps', 'lower', 'upper', 'trim', 'printf', 'join',
                  'substr', 'tokc', 'toks', 'split', 'eq', 'cmp', 'cmpn', 'cmpi', 'cmpin', 'eqi', 'findc', 'findlc', 'findcf',
-                 'finds', 'findsf', 'findo', 'findof', 'findls', 'findlo', 'starts', 'ends', 'len', 'drop']
+                 'finds', 'findsf', 'findo', 'findof', 'findls', 'findlo', 'starts', 'ends', 'len', 'drop', 'appo', 'appo', 'printfs']
         if self.allowed:
             kinds = [k for k in kinds if k in self.allowed]
         what = r.choice(kinds)
@@ -323,7 +323,6 @@ class Gen:
                     sh.vars[v].cap = max(len(x.val) + 10 * len(repl), or3(len(nv_)))
             self.emit('reps %d %d %d' % (v, nd, rp), lab)
         elif what == 'trim':
-            if not self.nulfree(v): return self.step()
             ends = bytes(set((x.val[:2] + x.val[-2:])))
             chars = bytes(c for c in ends if r.random() < 0.6) + (self.cdata(r.randrange(0, 3)) if r.random() < 0.5 else b'')
             chars = bytes(c for c in chars if c != 0)
@@ -334,16 +333,35 @@ class Gen:
             self.emit('trim %d %s' % (v, hexs(chars)), lab)
         elif what == 'printf':
             k = r.choice([0, 1, 5, 150, 199, 200, 201, 202, 203, 204, 250]) if r.random() < 0.35 else self.n()
-            if x.kind == 'O' and r.random() < 0.3:
-                k = r.choice([max(x.cap - 1, 0), x.cap, x.cap + 1])
             d = self.cdata(min(k, 400))
-            lab1 = sh.detach(v, 0, 200)
-            cap = sh.vars[v].cap
-            lab = 'printf/' + lab1 + ('/fits' if len(d) < cap else '/second-pass' + ('-exact' if len(d) == cap else ''))
-            if len(d) >= cap:
-                sh.detach(v, 0, len(d))
-            sh.vars[v].val = d
+            lab = self.printf_shadow(v, d)
             self.emit('printf %d %s' % (v, hexs(d)), lab)
+        elif what == 'printfs':
+            # an argument of printf is the String's own C-string view; output length around the 200/203 boundary
+            if not self.nulfree(v): return self.step()
+            room = 203 - n
+            tot = r.choice([room - 1, room, room + 1, 199 - n, 200 - n, 201 - n]) if (0 < room < 60 and r.random() < 0.5) else self.n(6)
+            tot = max(0, min(tot, 80))
+            ka = r.randrange(tot + 1)
+            a, b = self.cdata(ka), self.cdata(tot - ka)
+            lab0 = sh.cstr(v)
+            lab = self.printf_shadow(v, a + sh.vars[v].val + b).replace('printf/', 'printf-self/') + '/' + lab0
+            self.emit('printfs %d %s %s' % (v, hexs(a), hexs(b)), lab)
+        elif what == 'appo':
+            # append(p + off, len) with p the String's own C-string view
+            lab0 = sh.cstr(v)
+            x = sh.vars[v]; n = len(x.val)
+            goal = r.choice(['whole', 'whole', 'suffix', 'prefix', 'inner', 'empty', 'fit', 'over'])
+            if goal == 'whole' or n == 0: off, ln = 0, n
+            elif goal == 'suffix': off = r.randrange(n + 1); ln = n - off
+            elif goal == 'prefix': off, ln = 0, r.randrange(n + 1)
+            elif goal == 'empty': off, ln = r.randrange(n + 1), 0
+            elif goal in ('fit', 'over') and x.kind == 'O':
+                ln = max(0, min(n, x.cap - n + (1 if goal == 'over' else 0))); off = r.randrange(n - ln + 1)
+            else: off = r.randrange(n + 1); ln = r.randrange(n - off + 1)
+            nv_ = x.val + x.val[off:off + ln]
+            lab = mutate_known(nv_, n, len(nv_))
+            self.emit('appo %d %d %d' % (v, off, ln), 'append-own-text/%s/%s%s' % (lab, lab0, shared))
         elif what == 'join':
             k = r.choice([0, 1, 2, 2, 3])
             us = [self.other(v) if r.random() < 0.4 else r.randrange(len(sh.vars)) for _ in range(k)]
@@ -399,9 +417,11 @@ class Gen:
             self.emit('%s %d %d' % (what, v, u), what + ('/self' if u == v else ''))
         elif what in ('cmp', 'cmpi', 'eqi', 'cmpn', 'cmpin'):
             u = self.other(v)
-            if not (self.nulfree(v) and self.nulfree(u)): return self.step()
-            if what != 'eqi' or len(sh.vars[u].val) == n:
-                sh.cstr(v); sh.cstr(u)
+            if r.random() < 0.35:
+                # an operand that agrees with v on a prefix and then differs (bytes >= 0x80 against bytes < 0x80,
+                # embedded NUL before the difference, different case, one a proper prefix of the other)
+                cands = [i for i, y in enumerate(sh.vars) if i != v and y.val[:1] == x.val[:1]]
+                if cands: u = r.choice(cands)
             if what in ('cmpn', 'cmpin'):
                 k = r.choice([0, 1, n, n + 1, n + 5, r.randrange(0, n + 2)])
                 self.emit('%s %d %d %d' % (what, v, u, k), what + '/' + kd)
@@ -436,6 +456,18 @@ class Gen:
         else:
             return self.step()
 
+    def printf_shadow(self, v, d):
+        """String::printf keeps the old data in a temporary, so its detach(0, 200) always reallocates"""
+        sh = self.sh
+        x = sh.vars[v]
+        kd = x.kind + ('' if x.term else 'u') + ('/shared' if sh.refs(v) > 1 else '')
+        sh.own(v, x.val, 203)
+        lab = 'printf/' + kd + ('/fits' if len(d) < 203 else '/second-pass' + ('-exact' if len(d) == 203 else ''))
+        if len(d) >= 203:
+            sh.own(v, d, or3(len(d)))
+        sh.vars[v].val = d
+        return lab
+
     def history(self, nops):
         r = self.rng
         self.new_var()
@@ -447,8 +479,13 @@ class Gen:
         return self.ops
 
 
-CORE_OPS = ['apps', 'appb', 'appc', 'pres', 'preb', 'asg', 'copy-mutate', 'resize', 'reserve', 'clear', 'detach', 'poke', 'cstr',
+CORE_OPS = ['apps', 'appb', 'appc', 'appo', 'pres', 'preb', 'asg', 'copy-mutate', 'resize', 'reserve', 'clear', 'detach', 'poke', 'cstr',
             'attach', 'eq', 'len', 'drop']
+
+
+# comparisons of near-copies: copy, change one byte / case / length, compare (binary alphabet: 0x00, 0x80, 0xff)
+CMP_OPS = ['copy-mutate', 'copy-mutate', 'poke', 'poke', 'appc', 'appb', 'resize', 'lower', 'upper', 'attach', 'asg', 'eq', 'cmp', 'cmp',
+           'cmpn', 'cmpi', 'cmpin', 'eqi', 'starts', 'ends', 'drop', 'trim']
 
 
 def scope_cases(depth, alphabet):
@@ -466,13 +503,14 @@ SCOPE_ALPHABET = [
     'reps 3 0 1', 'reps 1 1 0', 'reps 3 3 3', 'trim 3 78', 'lower 0', 'upper 3', 'repc 1 99 67', 'join 1 44 1 3', 'join 3 44', 'printf 3 7071',
     'substr 3 1 -1', 'tokc 3 121 0', 'toks 3 79 3', 'split 3 79 0', 'cmp 3 0', 'cmpn 3 3 9', 'eqi 3 0', 'finds 3 797a', 'findls 3 -', 'findcf 3 122 1',
     'starts 3 0', 'ends 3 3', 'findlo 3 78', 'findc 3 33',
+    'appo 1 0 2', 'appo 3 1 2', 'appo 0 0 2', 'appo 2 1 0', 'printfs 1 3c 3e', 'printfs 3 - 21', 'printfs 0 - -',
 ]
 
 
 SCOPE3_ALPHABET = [
     'apps 1 1', 'apps 0 3', 'apps 3 1', 'pres 1 1', 'pres 3 3', 'pres 0 2', 'appb 1 6162636465', 'appc 3 33', 'asg 1 0', 'asg 3 1', 'asg 3 3',
     'copy 3', 'drop', 'clear 1', 'resize 1 5 120', 'resize 3 2 120', 'reserve 1 9', 'poke 1 0 90', 'cstr 3', 'attach 1 0 1 2', 'reps 3 3 1',
-    'join 1 44 1 3', 'lower 2', 'printf 3 7071', 'trim 3 78',
+    'join 1 44 1 3', 'lower 2', 'printf 3 7071', 'trim 3 78', 'appo 1 0 2', 'appo 3 1 2', 'printfs 1 3c 3e',
 ]
 
 
@@ -574,7 +612,8 @@ class C06(Check):
             c = [l for l in cases[i] if not l.startswith('@')]
             opl = c[k] if k < len(c) else ('end' if k == len(c) else '?')
             t = opl.split()
-            selfarg = len(t) > 2 and t[0] in ('apps', 'pres', 'asg', 'reps', 'join', 'eq', 'cmp', 'starts', 'ends') and t[1] in t[2:]
+            selfarg = (len(t) > 2 and t[0] in ('apps', 'pres', 'asg', 'reps', 'join', 'eq', 'cmp', 'starts', 'ends') and t[1] in t[2:]) \
+                or (t and t[0] in ('appo', 'printfs'))
             if got.startswith('!'):
                 kind = got.strip()
             elif exp.split(' | ')[0] != got.split(' | ')[0]:
@@ -614,6 +653,8 @@ class C06(Check):
                           note='all operations, byte strings with embedded NUL bytes (C-string based operations only where the shadow knows the operand is NUL-free)'))
         out.append(Stream('selfargs', self.gen_stream(rng, 25000 if th else 800, (5, 20), self_bias=0.7),
                           note='String arguments are the variable itself or a sharer of its block 70% of the time'))
+        out.append(Stream('compare', self.gen_stream(rng, 15000 if th else 700, (6, 24), binary=True, ops=CMP_OPS),
+                          note='copy, change one byte / the case / the length, then ==, compare*, equalsIgnoreCase, startsWith/endsWith, trim: byte strings with embedded NUL, 0x80, 0xff'))
         out.append(Stream('long', self.gen_stream(rng, 2000 if th else 60, (60, 140), big=True),
                           note='long histories, lengths up to 300 (printf first/second pass, capacity growth)'))
         out.append(Stream('scope1', scope_cases(1, SCOPE_ALPHABET), exhaustive=True,
@@ -645,6 +686,7 @@ class C06(Check):
             t = l.split()
             if t[0] in ('apps', 'pres', 'asg', 'eq', 'cmp', 'starts', 'ends') and len(t) > 2 and t[1] == t[2]: feats.add('self')
             if t[0] == 'reps' and (t[1] == t[2] or t[1] == t[3]): feats.add('self')
+            if t[0] in ('appo', 'printfs'): feats.add('self')
         muts = sum(1 for l in case if l.split()[0] not in ('new', 'lit', 'buf', 'fill', 'cap', 'reg', 'eq', 'len', 'cmp', 'findc', 'findlc', 'starts', 'ends'))
         return len(feats) >= 2 and muts >= 3
 
